@@ -302,3 +302,115 @@ for src, port, tpl in _it.product((False, True), repeat=3):
     key = '%s::OscMessageDispatcher.wrap_func#src-%s-port-%s-template-%s' % (F, src, port, tpl)
     REGISTRY[key] = REGISTRY.pop('%s::OscMessageDispatcher.wrap_func' % F)
     REGISTRY[key].key = key
+
+
+# ---- registry: AbstractWrappingDispatcher.add / remove ---------------------------------------------------
+# add(proxy): the proxy's wrapped function (wrap_func, above) is remembered under the proxy and entered under
+# the proxy's key - appended to the list that is there, or as a new one-element list - and the dispatcher
+# registers itself with the OSC interface iff it was not registered.  remove(proxy): that same wrapped
+# function leaves the key's list, the key disappears when its list becomes empty, the proxy's entry is
+# deleted, and the dispatcher unregisters iff nothing is active any more.
+KEY_KNOWN = z3.Bool('key_is_active')
+
+
+def reg_getattr(eng, obj, name, st, node):
+    if obj.k == 'module' and name == 'NotificationCenter':
+        return [(st, V('obj', oid='NotificationCenter'))]
+    if obj.k == 'obj' and obj.oid == 'NotificationCenter' and name in ('register', 'unregister'):
+        def nc(eng, args, kwargs, st, node, _n=name):
+            st.trace.append(('notif-' + _n, tuple(args)))
+            return [(st, NONE)]
+        return [(st, V('func', py=('spec', nc)))]
+    if obj.k == 'obj' and obj.oid == 'active-list' and name in ('append', 'remove'):
+        def lst(eng, args, kwargs, st, node, _n=name):
+            st.trace.append(('list-' + _n, args[0]))
+            return [(st, NONE)]
+        return [(st, V('func', py=('spec', lst)))]
+    return None
+
+
+def reg_getitem(eng, obj, idx, st, node):
+    if obj.k == 'obj' and obj.oid == 'self.active':
+        outs = []
+        for st1, known in eng.branch(st, KEY_KNOWN, node):
+            if known:
+                after = st1.ghost.get('list_after_remove')
+                outs.append((st1, V('ref', cls='KeyList', oid='active-list', extra={
+                    'truth': z3.Bool('list_nonempty_after') if after else z3.BoolVal(True)})
+                    if False else V('obj', oid='active-list')))
+            else:
+                outs.append((st1, Raised(eng.make_exc('KeyError', node=node))))
+        return outs
+    if obj.k == 'obj' and obj.oid == 'self.wrapped_funcs':
+        return [(st, V('obj', oid='the-wrapped-func'))]
+    return None
+
+
+def reg_setitem(eng, obj, idx, v, st, node):
+    if obj.k == 'obj' and obj.oid in ('self.active', 'self.wrapped_funcs'):
+        st.trace.append(('store', obj.oid, idx, v))
+        return [('next', st)]
+    return None
+
+
+def reg_delitem(eng, obj, idx, st, node):
+    if obj.k == 'obj' and obj.oid in ('self.active', 'self.wrapped_funcs'):
+        st.trace.append(('delete', obj.oid, idx))
+        return [('next', st)]
+    return None
+
+
+def keys_pol(eng, selfv, args, kwargs, st, node):
+    return [(st, vlist([V('obj', oid='the-key')]))]
+
+
+def wrap_pol(eng, selfv, args, kwargs, st, node):
+    st.trace.append(('wrap', tuple(args)))
+    return [(st, V('obj', oid='the-wrapped-func'))]
+
+
+def traced_pol(name):
+    def pol(eng, selfv, args, kwargs, st, node):
+        st.trace.append((name,))
+        return [(st, NONE)]
+    return pol
+
+
+def add_post(c):
+    t = c.trace
+    stores = [e for e in t if e[0] == 'store']
+    apps = [e for e in t if e[0] == 'list-append']
+    regs = [e for e in t if e[0] == 'register']
+    proxy = c._params['func_proxy']
+    remembered = [e for e in stores if e[1] == 'self.wrapped_funcs']
+    ok = (len(remembered) == 1 and remembered[0][2] is proxy and remembered[0][3].k == 'obj'
+          and remembered[0][3].oid == 'the-wrapped-func' and len([e for e in t if e[0] == 'wrap']) == 1)
+    if not ok:
+        return z3.BoolVal(False)
+    new_lists = [e for e in stores if e[1] == 'self.active']
+    cl = [z3.BoolVal(len(regs) == 1) == z3.Not(c.pre.self.registered), z3.BoolVal(len(regs) <= 1)]
+    if apps:
+        ok2 = len(apps) == 1 and not new_lists and apps[0][1].k == 'obj' and apps[0][1].oid == 'the-wrapped-func'
+        cl += [KEY_KNOWN, z3.BoolVal(bool(ok2))]
+    else:
+        ok2 = (len(new_lists) == 1 and new_lists[0][2].k == 'obj' and new_lists[0][2].oid == 'the-key'
+               and new_lists[0][3].k == 'list' and new_lists[0][3].items is not None and len(new_lists[0][3].items) == 1
+               and new_lists[0][3].items[0].oid == 'the-wrapped-func')
+        cl += [z3.Not(KEY_KNOWN), z3.BoolVal(bool(ok2))]
+    return z3.And(*cl)
+
+
+REG_FIELDS = {'AbstractWrappingDispatcher': {'registered': 'bool', 'active': 'obj', 'wrapped_funcs': 'obj'}}
+REG_POL = {'AbstractWrappingDispatcher.wrap_func': wrap_pol,
+           'AbstractWrappingDispatcher.get_keys_for_func_proxy': keys_pol,
+           'AbstractWrappingDispatcher.register': traced_pol('register'),
+           'AbstractDispatcher.register': traced_pol('register'),
+           'AbstractWrappingDispatcher.unregister': traced_pol('unregister'),
+           'AbstractDispatcher.unregister': traced_pol('unregister')}
+
+contract(F, 'AbstractWrappingDispatcher.add', props=('C18',), params={'self': 'self', 'func_proxy': 'obj'},
+         ensures=[('wrapped-function-remembered-and-entered-under-the-key;registers-iff-needed', add_post)],
+         modifies=[], fields=REG_FIELDS,
+         hooks={'getattr': reg_getattr, 'getitem': reg_getitem, 'setitem': reg_setitem},
+         policies=REG_POL, class_modules={'AbstractWrappingDispatcher': F}, native=False,
+         note='one key per proxy (what both OSC dispatchers return); the registries are dictionaries: ghost events')
